@@ -64,7 +64,8 @@ def plan(prop, tier, seed):
         shards = seq_shards(prop, seed, n, b)
         extra = info.get("extra_shards")
         if extra:
-            shards = shards[:12] + extra(seed, quick)
+            more = extra(seed, quick)
+            shards = shards[:max(8, 16 - len(more))] + more
         return {"shards": shards, "rule": SEQ_RULE + (" " + CONC_RULE if extra else ""), "explanation": info["explanation"],
                 "assumptions": COMMON_ASSUMPTIONS + info.get("assumptions", []), "require": info["require"]}
     if prop in OTHER:
@@ -76,7 +77,7 @@ def _c01(seed, quick):
     n, b = (140, 40) if quick else (2000, 400)
     m, mb = (25, 40) if quick else (500, 400)
     return {
-        "shards": seq_shards("C01", seed, n, b, shards=7) + conc_shards("C01", seed, "mixed", m, mb, shards=7) + conc_shards("C01", seed, "update-sweep", 120 if quick else 3000, mb, shards=2),
+        "shards": seq_shards("C01", seed, n, b, shards=7) + conc_shards("C01", seed, "mixed", m, mb, shards=7) + conc_shards("C01", seed, "update-sweep", 120 if quick else 3000, mb, shards=1) + conc_shards("C01", seed, "sweep-other-key", 108 if quick else 3000, mb, shards=1),
         "rule": SEQ_RULE + " " + CONC_RULE,
         "explanation": "Online invariant: every change of the total weight emits WeightChanged{site,new_total,max} under the total's own write lock "
                        "(add / update / delete); the recorder asserts 0 <= new_total <= max at that instant. Two observer threads spin on the public "
@@ -84,7 +85,7 @@ def _c01(seed, quick):
                        "max-1, max, max+1) and C-mode mixed runs under pressure with expiry/sweeps racing the worker; half of the concurrent cases give every "
                        "write of a key the same explicit weight, so the bound is also checked where the recorded UpdateWeight defect cannot play.",
         "assumptions": COMMON_ASSUMPTIONS + ["observation stops before shutdown(): clear() may race a worker delete"],
-        "require": ["weight_change_events", "observer_samples", "evictions", "forced_long_delays_hit", "sweeps_overlapping_worker_commands"],
+        "require": ["weight_change_events", "observer_samples", "evictions", "forced_long_delays_hit", "sweeps_overlapping_worker_commands", "puts_admitted_while_the_sweeper_was_mid_eviction"],
     }
 
 
@@ -165,7 +166,7 @@ def _c11(seed, quick):
 def _c12(seed, quick):
     m, mb = (25, 40) if quick else (500, 400)
     plan = {
-        "shards": comp_shards("C12", seed, "c12-directed", 1, 120, shards=1) + comp_shards("C12", seed, "c12-stress", 1500 if quick else 60000, mb, shards=7) + conc_shards("C12", seed, "mixed", m, mb, shards=8),
+        "shards": comp_shards("C12", seed, "c12-directed", 1, 120, shards=1) + comp_shards("C12", seed, "c12-stress", 1500 if quick else 60000, mb, shards=6) + conc_shards("C12", seed, "mixed", m, mb, shards=7) + conc_shards("C12", seed, "shutdown", 400 if quick else 40000, mb, shards=2),
         "rule": "Directed: all placements of 1-3 sequential polls (same or fresh waker) into the four gaps of done() {before, between its two stores, before the wake, "
                 "after return} x 3 final statuses, the completer held by gates at the lock-free schedule points: 312 cases, exhaustive at that granularity. Stress: "
                 "an executor-like poller (waits for its own waker, spurious re-polls, waker changes; sometimes two tasks on one handle) vs done() with seeded delays "
@@ -176,7 +177,7 @@ def _c12(seed, quick):
                        "Pending after Ready, a task whose last poll was Pending not being woken although done() returned (decided logically: the wake happens inside "
                        "done(), so once done() has returned the wake count must be non-zero), or an acknowledgement unresolved at quiescence.",
         "assumptions": ["'eventually completes' is restated as: resolved by the time every sent command has been acknowledged by the worker"],
-        "require": ["polls_inside_gap_1", "polls_inside_gap_2", "wake_obligations_checked", "stress_polls", "acks:Accepted"],
+        "require": ["polls_inside_gap_1", "polls_inside_gap_2", "wake_obligations_checked", "stress_polls", "acks:Accepted", "acknowledgements_of_commands_behind_shutdown"],
     }
     import sanit
     plan["extras"] = [sanit.miri_ack_quick_extra] if quick else [sanit.miri_ack_extra]
@@ -202,16 +203,18 @@ def _c13(seed, quick):
 
 def _c14(seed, quick):
     return {
-        "shards": comp_shards("C14", seed, "c14", 6 if quick else 400, 400),
+        "shards": comp_shards("C14", seed, "c14", 6 if quick else 400, 400, shards=12) + conc_shards("C14", seed, "estimate", 300 if quick else 20000, 40 if quick else 400, shards=4),
         "rule": "Packed rows: all 256 byte values x 2 nibble positions (exhaustive for that part). Sketch / TinyLFU: every counter count 1..=130 plus random larger ones "
                 "(non-powers of two included), random access streams over a 6-12 hash alphabet with collisions, against an unpacked reference sketch fed the same "
                 "row seeds. distinct = (part, byte/position | counter count, stream seed); every case is non-trivial (each exercises increments and ageing).",
         "explanation": "increment_at changes only its own nibble and saturates at 15; get_at reads the right nibble; half_counters = floor(n/2) per nibble; "
                        "FrequencyCounter::estimate = reference minimum and the whole matrix equals the reference after the stream; TinyLFU: estimate >= min(recorded "
                        "accesses in the window, 15) and <= 16, the reset happens at exactly `counters` recorded accesses (also inside a batch), halves every "
-                       "counter (matrix compared before/after) and clears the first-access filter.",
+                       "counter (matrix compared before/after) and clears the first-access filter. End-to-end through CacheD: readers hit resident keys a known number of times (paced so "
+                       "that nothing is dropped, 10^6 counters so that nothing ages) while a writer storms the full cache with puts that are rejected after consulting the sketch "
+                       "(read-lock traffic against the consumer's write lock); afterwards every key's estimate must be at least min(hits - still buffered, 15).",
         "assumptions": ["bloom-filter false positives only raise estimates: only the lower bound and the cap are asserted on estimates"],
-        "require": ["byte_cases", "counter_counts_covered", "tinylfu_resets", "saturated_estimates_seen", "filter_checked_right_after_ageing"],
+        "require": ["byte_cases", "counter_counts_covered", "tinylfu_resets", "saturated_estimates_seen", "filter_checked_right_after_ageing", "end_to_end_estimates_checked", "rejected_puts_consulting_the_sketch_during_the_reads"],
     }
 
 
@@ -253,7 +256,7 @@ OTHER = {"C01": _c01, "C02": _c02, "C05": _c05, "C06": _c06, "C11": _c11, "C12":
 
 
 def _c04_extra(seed, quick):
-    return conc_shards("C04", seed, "mixed", 25 if quick else 500, 40 if quick else 400, shards=2) + conc_shards("C04", seed, "held-client", 600 if quick else 20000, 40 if quick else 400, shards=2)
+    return conc_shards("C04", seed, "mixed", 40 if quick else 600, 40 if quick else 400, shards=3) + conc_shards("C04", seed, "held-client", 600 if quick else 20000, 40 if quick else 400, shards=1)
 
 
 def _c08_extra(seed, quick):
@@ -262,22 +265,24 @@ def _c08_extra(seed, quick):
 
 def _c07_extra(seed, quick):
     return (conc_shards("C07", seed, "same-key", 24 if quick else 400, 40 if quick else 400, shards=1) + conc_shards("C07", seed, "held-client", 600 if quick else 20000, 40 if quick else 400, shards=1)
-            + conc_shards("C07", seed, "mixed", 30 if quick else 600, 40 if quick else 400, shards=2))
+            + conc_shards("C07", seed, "mixed", 40 if quick else 600, 40 if quick else 400, shards=4))
 
 
 def _c03_extra(seed, quick):
     # free-running concurrent histories without memory pressure (final value of every key whose last write was not overlapped) and the
     # directed sweeper-vs-reput race
-    return conc_shards("C03", seed, "mixed", 30 if quick else 600, 40 if quick else 400, shards=3) + conc_shards("C03", seed, "sweep-reput", 60 if quick else 3000, 40 if quick else 400, shards=1)
+    return (conc_shards("C03", seed, "mixed", 30 if quick else 600, 40 if quick else 400, shards=2) + conc_shards("C03", seed, "sweep-reput", 60 if quick else 3000, 40 if quick else 400, shards=1)
+            + conc_shards("C03", seed, "sweep-other-key", 108 if quick else 3000, 40 if quick else 400, shards=1))
 
 
 def _c09_extra(seed, quick):
     # expiry under concurrency: clients record the harness clock around every call while an advancer thread moves it
-    return conc_shards("C09", seed, "mixed", 30 if quick else 600, 40 if quick else 400, shards=4)
+    return conc_shards("C09", seed, "mixed", 30 if quick else 600, 40 if quick else 400, shards=3) + conc_shards("C09", seed, "sweep-other-key", 108 if quick else 3000, 40 if quick else 400, shards=1)
 
 
 def _c10_extra(seed, quick):
-    return conc_shards("C10", seed, "sweep-reput", 60 if quick else 3000, 40 if quick else 400, shards=2) + conc_shards("C10", seed, "update-sweep", 120 if quick else 3000, 40 if quick else 400, shards=2)
+    return (conc_shards("C10", seed, "sweep-reput", 60 if quick else 3000, 40 if quick else 400, shards=1) + conc_shards("C10", seed, "update-sweep", 120 if quick else 3000, 40 if quick else 400, shards=1)
+            + conc_shards("C10", seed, "sweep-other-key", 108 if quick else 3000, 40 if quick else 400, shards=2))
 
 
 def _c16_extra(seed, quick):
@@ -297,7 +302,7 @@ SEQ_ONLY = {
                        "maximum (weights not judged) so that weight kept charged by mistake turns into forbidden eviction or rejection. C-mode adds free-running concurrent runs "
                        "without pressure (a key whose last put/delete began after every other write of it was acknowledged must end in that state) and the directed race "
                        "'sweeper evicting an expired incarnation while the key is deleted and put again'.",
-        "require": ["reads_returned_value", "keys_swept", "noise_ops", "final_values_checked", "reput_presence_checks"],
+        "require": ["reads_returned_value", "keys_swept", "noise_ops", "final_values_checked", "reput_presence_checks", "capacity_probes"],
         "extra_shards": _c03_extra,
     },
     "C04": {
@@ -314,7 +319,7 @@ SEQ_ONLY = {
                        "key's expiry, the key is gone from store, weight map and index and its weight is released. Safety half after every step: every id the sweeper "
                        "evicts (SweepCompleted event) must belong to a key whose current expiry is earlier than the sweep's clock reading; a live key must never be "
                        "missing; index entries must match the stored expiry and shard; old index entries of earlier incarnations coming due are counted.",
-        "require": ["keys_swept", "critical:full-cycle", "sweep_evicted_ids", "deadlines_crossed", "reputs_completed_while_the_sweeper_was_stretched"],
+        "require": ["keys_swept", "critical:full-cycle", "sweep_evicted_ids", "deadlines_crossed", "reputs_completed_while_the_sweeper_was_stretched", "ttl_changes_made_while_the_sweeper_held_the_shard"],
         "extra_shards": _c10_extra,
     },
     "C07": {
@@ -335,7 +340,7 @@ SEQ_ONLY = {
                        "after a deadline, TTL add/change/remove followed by jumps across the old and new deadline, sweeper at 1 ms or never (1 h tick), "
                        "2-256 shards; every read variant must serve the value strictly before the deadline and never after it. C-mode adds expiry under concurrency: clients record the "
                        "harness clock around every call while an advancer thread moves it; a read that began after (clock at the write's acknowledgement + ttl) must not return that value.",
-        "require": ["reads_before_deadline", "reads_after_deadline", "deadlines_crossed", "reads_of_values_with_a_known_deadline"],
+        "require": ["reads_before_deadline", "reads_after_deadline", "deadlines_crossed", "reads_of_values_with_a_known_deadline", "ttl_changes_made_while_the_sweeper_held_the_shard"],
         "extra_shards": _c09_extra,
     },
     "C16": {
